@@ -471,6 +471,10 @@ def _discharge_range(b, s):
     if end_o is None:
         return None
     end = ival(b, end_o, bb)
+    # end = min(len(this slice), ..)
+    if end_o[0] == "call" and end_o[1].callee.get("name") == "min" and kind in ("RangeTo", "Range"):
+        if any(_len_target(b, b.origin(a)) == sid for a in end_o[1].args) and (kind == "RangeTo" or (start is not None and start == (0, 0))):
+            return "end = min(len, ..) <= len"
     # end relative to the length: len - c
     eo = end_o[1] if end_o[0] == "field" and end_o[1][0] == "binop" else end_o
     if eo[0] == "binop" and eo[1].startswith("Sub") and _len_target(b, eo[2]) == sid:
